@@ -418,6 +418,9 @@ def run(ctx, rep):
     modules_are_not_left_by_return(F, rep)
     exports_are_registered_by_module_level_code(F, rep)
     names_import_supplies_what_it_binds(F, rep)
+    # `import typed from m` imports the name `typed`, not the type `d`
+    from props import _keywords
+    rep.floor("C11.keyword-boundary import keywords judged", _keywords.run(F, rep, "C11.keyword-boundary", only={"import_type", "import_standard", "import_names"}), 3)
     # "importers cannot reassign them": a write through the module - or through any alias of it, also one a function captured - is refused (C10's clauses)
     from props import C10 as _c10
     from core import Report as _Report
